@@ -7,7 +7,7 @@ _D = os.path.join(os.path.dirname(os.path.abspath(__file__)), "props")
 sys.path.insert(0, _D)
 
 # commits in /repo that add build-tagged hooks (tag `verif`)
-HOOK_COMMITS = ["772add9", "881f4e3"]
+HOOK_COMMITS = ["772add9", "881f4e3", "ebb54a5"]
 
 _NYB = "check not built yet in this round (planned, see DESIGN.md section 6); not claimed"
 NOT_APPLICABLE = {f"C{i:02d}": _NYB for i in range(1, 21)}
@@ -18,3 +18,14 @@ for _p in sorted(glob.glob(os.path.join(_D, "C[0-9][0-9].py"))):
     _m = importlib.util.module_from_spec(_spec)
     _spec.loader.exec_module(_m)
     PROPS[os.path.basename(_p)[:-3]] = _m.CFG
+
+# properties whose check is temporarily NOT CLAIMED in MANIFEST.json (bin/check still knows them):
+# one "Cnn reason..." per line in bin/props/DISABLED
+DISABLED = {}
+_dis = os.path.join(_D, "DISABLED")
+if os.path.exists(_dis):
+    for _l in open(_dis):
+        _l = _l.strip()
+        if _l and not _l.startswith("#"):
+            _pid, _, _why = _l.partition(" ")
+            DISABLED[_pid] = _why or "temporarily not claimed"
